@@ -202,7 +202,7 @@ PROPS["C07"] = dict(
 )
 
 PROPS["C01"] = dict(
-    suites=["c01"],
+    suites=["c01", "c03b"],
     lean_modules=["ServlinVerif.Props.C01"],
     audit="Audit/C01.lean",
     rule="read_http_request on scripted streams (FixedBuf<16|64|8192>): exhaustive strings over {G / SP : CR LF 0x80 a} up to length 6 (7 "
@@ -212,7 +212,7 @@ PROPS["C01"] = dict(
          "for BUF in {64, 8192}; all 2-way splits and EOF/error at every offset of 4 short heads. Non-trivial = a blank line is present "
          "(parser reached) or the stream is non-empty.",
     nontrivial=lambda tag, args, obs: not obs.startswith("err:Truncated") and not obs.startswith("err:Disconnected"),
-    klass=lambda tag, args, obs: "c01:" + obs.split(" ")[0],
+    klass=lambda tag, args, obs: "c03b:ops=%d" % min(args[1].count(";") + 1, 24) if tag == "c05" else "c01:" + obs.split(" ")[0][:40],
     explanation="Head::try_read / read_http_head / read_http_request modelled (regexes as explicit matchers, url crate as parameter supplied "
                 "per case by the harness). Theorems: C01_total (never panics, only documented errors), readHeadOp_eq_D / "
                 "C01_sched_irrelevant (every read schedule gives the denotational result), C01_consumes_exactly, C01_eof_anywhere.",
@@ -250,7 +250,7 @@ PROPS["C03"] = dict(
 )
 
 PROPS["C02"] = dict(
-    suites=["c02"],
+    suites=["c02", "c01s"],
     lean_modules=["ServlinVerif.Props.C02"],
     audit="Audit/C02.lean",
     rule="1500 (12000) grammar-derived heads (every tchar in methods/names, every VCHAR/SP/HT in values, 0-40 fields, OWS variants, class-A "
@@ -404,7 +404,7 @@ PROPS["C05"] = dict(
 )
 
 PROPS["C04"] = dict(
-    suites=["c04"],
+    suites=["c04", "c03b"],
     shards={"c04": 4},
     lean_modules=["ServlinVerif.Props.C04", "ServlinVerif.Props.C05", "ServlinVerif.Props.C04Pipeline"],
     audit="Audit/C04.lean",
@@ -415,7 +415,7 @@ PROPS["C04"] = dict(
          "fragments with pauses, ping-pong}; observed = handler call log + client transcript + files left in the cache dir. "
          "Non-trivial = at least one handler call.",
     nontrivial=lambda tag, args, obs: not obs.startswith("calls= "),
-    klass=lambda tag, args, obs: "c04:%s:calls=%d" % (args[2], min(len([x for x in obs.split(" wire=")[0][6:].split("|") if x]), 6)),
+    klass=lambda tag, args, obs: "c03b:ops=%d" % min(args[1].count(";") + 1, 24) if tag == "c05" else "c04:%s:calls=%d" % (args[2], min(len([x for x in obs.split(" wire=")[0][6:].split("|") if x]), 6)),
     explanation="handle_http_conn_once / handle_http_conn modelled on top of the connection model with the handler as an oracle; theorems: "
                 "C04_runs_per_request (at most two runs; two only after a fetch-body answer, the second with the body present), "
                 "C04_closed_after_error / C04_error_status_closes / C04_not_ready_stops (after any error, 4xx/5xx, drop or unread body no "
